@@ -26,6 +26,7 @@ static const row ROWS[] = {
 	{ "X4",          IN_RANDOM,  20,  8,  2,  0, 3,  0, 0,    1, 0, 0, 0 },
 	{ "X4",          IN_TEXT,    8,   4,  2,  0, 1,  0, 0,    1, 0, 0, 0 },
 	{ "X4",          IN_TEXT,    10,  4,  2,  0, 5,  3, 0,    1, 0, 0, 0 },
+	{ "X4",          IN_TEXT,    4,   4,  2,  0, 0,  2, 0,    2, 0, 0, 0 },	// one Block delivered in two slices, bound 2 also under ThreadSanitizer (unlocked reads of worker state)
 	{ "X4",          IN_TEXT,    8,   4,  2,  1, 0,  0, 0,    1, 1, 0, 0 },
 	{ "X4",          IN_TEXT,    10,  4,  2,  1, 5,  0, 0,    1, 2, 0, 1 },
 	{ "R2X4",        IN_TEXT,    8,   4,  2,  0, 0,  0, 0,    2, 0, 0, 0 },
@@ -194,7 +195,7 @@ static int parse_schedule(const char *s) { int maxi = -1; memset(vs_prefix, 0, s
 
 int main(int argc, char **argv) {
 	h_init(); h_set_init(&obsset, 256); h_crash_extra = sched_extra; vs_on_fatal = on_fatal;
-	if (argc >= 2 && !strcmp(argv[1], "list")) { for (int i = 0; i < NROWS; i++) { row_name(&ROWS[i], i); printf("ROW %d tier=%d threads=%d bp=%d %s\n", i, ROWS[i].tier, ROWS[i].threads, ROWS[i].bp, rowname); } return 0; }
+	if (argc >= 2 && !strcmp(argv[1], "list")) { for (int i = 0; i < NROWS; i++) { row_name(&ROWS[i], i); printf("ROW %d tier=%d threads=%d bp=%d tbp=%d %s\n", i, ROWS[i].tier, ROWS[i].threads, ROWS[i].bp, (ROWS[i].plen <= 4 && ROWS[i].inchunk > 0 && ROWS[i].bp >= 2) ? 2 : -1, rowname); } return 0; }
 	if (argc < 3) return 2;
 	int ri = atoi(argv[2]); if (ri < 0 || ri >= NROWS) return 2; R = &ROWS[ri]; row_name(R, ri);
 	plen = R->plen; uint32_t x = 99; for (size_t i = 0; i < plen; i++) { x = x * 1664525u + 1013904223u; plain[i] = R->input == IN_RANDOM ? (unsigned char)(x >> 24) : "abcab"[i % 5]; }
